@@ -10,7 +10,7 @@ from pathlib import Path
 import codec
 
 PROP = "C02"
-LEAN_MODULES = ["Props.C02"]
+LEAN_MODULES = ["Props.C02", "Props.C02F"]
 RULE = (
     "three case shapes. field: (field config, value, pre-existing str/bytes target line) -> Field.write(line) "
     "compared position by position (Spec.C02.holdsField / holdsFieldBin: length, every position outside the span, "
@@ -29,7 +29,7 @@ ASSUMPTIONS = [
     "binary numeric fields have size 2, 4 or 8 (the property's domain)",
 ]
 TRUSTED = []
-NOT_THEOREMS = ['character shape of float and date renderings (no blank inside a number; a date text starts in column 0): hypothesis of Props.C02.field_write_of_raw']
+NOT_THEOREMS = ['character shape of float renderings outside the ranges of the C01 float laws (F notation from 2^1013 on, E notation for non-zero values below 2^-948 or from 2^1013 on): hypothesis of Props.C02.field_write_of_raw, evaluated per case; for every other admitted value it is a theorem (Props.C02.shape_dom, field_write_dom, line_write_dom)']
 EXHAUSTIVE = {"quick": True, "thorough": True}
 MARK = "abcdefghijklmnopqrstuvwxyz"
 
